@@ -206,6 +206,7 @@ type Ex struct {
 	letCache map[string]*T
 	visHeap  string // ghost visited-set of the function's only map range ("" if none)
 	visKey   *Sort
+	clos     []closureRec // closures made so far in the function under proof (for call / callpre)
 }
 
 func (x *Ex) child() *Ex {
@@ -1192,6 +1193,66 @@ func (x *Ex) call(v *ast.CallExpr, want *Sort) *T {
 		argN(1)
 		a := x.tr(v.Args[0], nil)
 		return mk(sapp("select", x.state().get("G$chansent", arrSort(sRef, sI64)).S, a.S), sI64)
+	case "call", "callpre":
+		// call(f, a...): the result of applying the function value f - which must be a closure made in the
+		// function under proof whose own contract is `pure` with a clause `ensures result == E` - to the
+		// arguments: E with the closure's parameters bound to the arguments and its free variables to
+		// the captured cells, in the current state. callpre(f, a...): the closure's preconditions for
+		// those arguments. This is how a contract of a higher-order dependency (slices.ContainsFunc)
+		// speaks about the predicate it is given; the closure body is verified against its contract
+		// like any other function.
+		if len(v.Args) < 1 {
+			fail("%s needs a function value", fn.Name)
+		}
+		f := x.tr(v.Args[0], sFn)
+		var rec *closureRec
+		for k := range x.clos {
+			if x.clos[k].term.S == f.S {
+				rec = &x.clos[k]
+			}
+		}
+		if rec == nil {
+			fail("%s: the function value is not a closure made in the function under proof", fn.Name)
+		}
+		ct := x.w.specs.Contracts[funcKey(rec.fn)]
+		if ct == nil || !ct.Pure {
+			fail("%s: closure %s has no `pure` contract", fn.Name, rec.fn.Name())
+		}
+		if len(v.Args)-1 != len(rec.fn.Params) {
+			fail("%s: wrong number of arguments for %s", fn.Name, rec.fn.Name())
+		}
+		cx := &Ex{enc: x.enc, w: x.w, pkg: rec.fn.Pkg.Pkg, vars: map[string]*T{}, lets: map[string]string{}, cur: x.state(), old: x.state(), qdepth: x.qdepth, clos: x.clos}
+		for k, fv := range rec.fn.FreeVars {
+			if k < len(rec.bindings) {
+				cx.vars[fv.Name()] = rec.bindings[k].withGo(fv.Type())
+			}
+		}
+		for k, p := range rec.fn.Params {
+			a := x.tr(v.Args[k+1], x.enc.sortOf(p.Type()))
+			cx.vars[p.Name()] = a.withGo(p.Type())
+		}
+		for _, l := range ct.Lets {
+			cx.lets[l.Name] = l.Expr
+		}
+		if fn.Name == "callpre" {
+			out := tTrue()
+			for _, c := range ct.Requires {
+				out = tAnd(out, cx.Bool(c.Expr))
+			}
+			return out
+		}
+		for _, c := range ct.Ensures {
+			e := strings.TrimSpace(c.Expr)
+			if strings.HasPrefix(e, "result == ") {
+				rs := rec.fn.Signature.Results()
+				if rs.Len() != 1 {
+					break
+				}
+				return cx.Term(strings.TrimPrefix(e, "result == "), x.enc.sortOf(rs.At(0).Type()))
+			}
+		}
+		fail("%s: closure %s has no clause of the form `ensures result == E`", fn.Name, rec.fn.Name())
+		return nil
 	case "zeroOf":
 		// the zero value of the argument's type
 		argN(1)
